@@ -465,8 +465,8 @@ def check_units(case):
 
 
 SUBCHECKS = [
-    SubCheck("mirror", check_mirror, strategy=strat_mirror, examples={"quick": 300, "thorough": 2000}, shards={"quick": 8, "thorough": 16}),
-    SubCheck("units", check_units, strategy=strat_units, examples={"quick": 300, "thorough": 2000}, shards={"quick": 8, "thorough": 16}),
+    SubCheck("mirror", check_mirror, strategy=strat_mirror, examples={"quick": 400, "thorough": 2000}, shards={"quick": 8, "thorough": 16}),
+    SubCheck("units", check_units, strategy=strat_units, examples={"quick": 450, "thorough": 2000}, shards={"quick": 8, "thorough": 16}),
 ]
 
 META = dict(
